@@ -25,12 +25,12 @@ type J = jx.J
 
 // atom contributes definitions and/or operations to a batch document.
 type atom struct {
-	id      string
-	kind    string // schema | param | name | text
-	defs    map[string]J
-	ops     []opJ
-	secDefs J
-	noCLI   bool
+	id       string
+	kind     string // schema | param | name | op | text
+	defs     map[string]J
+	ops      []opJ
+	secDefs  J
+	noCLI    bool
 	noExpand bool
 }
 
@@ -97,12 +97,12 @@ func main() {
 		label   string
 	}
 	var jobs []job
-	size := map[string]int{"schema": 70, "param": 60, "name": 40, "text": 7}
+	size := map[string]int{"schema": 70, "param": 60, "name": 40, "op": 60, "text": 7}
 	modeSet := modes[:1]
 	if c.Thorough() {
 		modeSet = modes
 	}
-	for _, kind := range []string{"schema", "param", "name", "text"} {
+	for _, kind := range []string{"schema", "param", "name", "op", "text"} {
 		as := byKind[kind]
 		for i := 0; i < len(as); i += size[kind] {
 			j := i + size[kind]
@@ -124,7 +124,7 @@ func main() {
 		switches = append(switches, []string{"--with-enum-ci"}, []string{"--rooted-error-path"}, []string{"--exclude-main"}, []string{"--exclude-spec"}, []string{"--skip-models"}, []string{"--skip-operations"})
 	}
 	for si, sw := range switches {
-		for ki, kind := range []string{"schema", "param", "name"} {
+		for ki, kind := range []string{"schema", "param", "name", "op"} {
 			as := byKind[kind]
 			if len(as) == 0 || (!c.Thorough() && (si+ki)%4 != 0) {
 				continue
@@ -171,6 +171,7 @@ func main() {
 		jobsB = append(jobsB, job{atoms: as, targets: []string{"model", "server", "client", "cli"}, mode: m, extra: extra, label: "composite"})
 	}
 	run(jobsB, "B:")
+	flushReports(c)
 	c.Finish("the real swagger binary generates model / server / client / cli code for batches of atoms (every schema shape, every parameter kind, the name corpus at every name position, free-text breakers) under the flatten modes and a covering set of option switches, then `go build ./...` compiles the output against the pinned go-openapi runtime; diagnostics are attributed to atoms through swagger:model / swagger:route markers of the generated files; oracle: a document accepted by validate.Spec generates with exit 0 and compiles; pass B: seeded 30-atom composites of atoms that held; distinct = (atom, target, mode, outcome)",
 		400, 200, []string{
 			"documents rejected by go-openapi/validate v0.24.0 are dropped (the generator runs the same validation)",
@@ -257,18 +258,23 @@ func attribute(modDir, rel string, line int, byDef, byPath, byOp map[string]stri
 	// client facade files: the enclosing method's PathPattern
 	if strings.HasSuffix(base, "_client.go") && line > 0 {
 		lines := strings.Split(src, "\n")
-		for i := line; i < len(lines) && i < line+60; i++ {
-			if m := rxPathPattern.FindStringSubmatch(lines[i]); m != nil {
-				if id, ok := byPath[m[1]]; ok {
-					return id
-				}
-			}
+		// the enclosing method: back to its "func" line, then forward to its PathPattern
+		start := line - 1
+		if start >= len(lines) {
+			start = len(lines) - 1
 		}
-		for i := line; i >= 0 && i > line-60 && i < len(lines); i-- {
+		for start > 0 && !strings.HasPrefix(lines[start], "func ") {
+			start--
+		}
+		for i := start; i < len(lines); i++ {
+			if i > start && strings.HasPrefix(lines[i], "func ") {
+				break
+			}
 			if m := rxPathPattern.FindStringSubmatch(lines[i]); m != nil {
 				if id, ok := byPath[m[1]]; ok {
 					return id
 				}
+				break
 			}
 		}
 	}
@@ -446,7 +452,7 @@ func runBatch(c *core.Ctx, as []atom, tgs []string, m mode, extra []string, pass
 			heldAtom[id] = false
 			blamed[id] = true
 			if pass == "" {
-				c.Violation(fmt.Sprintf("C01/%s/%s/%s/%s", id, kind, tg, cfg), fmt.Sprintf("generate %s on a valid document: %s: %s", tg, kind, core.OneLine(msg)), files(out))
+				report(id, kind, tg, cfg, fmt.Sprintf("generate %s on a valid document: %s: %s", tg, kind, core.OneLine(msg)), files(out))
 			} else {
 				c.Violation(fmt.Sprintf("C01/B:%s/%s/%s", id, kind, tg), fmt.Sprintf("composite (%s): generate %s: %s: %s", cfg, tg, kind, core.OneLine(msg)), files(out))
 			}
@@ -524,7 +530,7 @@ func runBatch(c *core.Ctx, as []atom, tgs []string, m mode, extra []string, pass
 				mu.Lock()
 				heldAtom[as[0].id] = false
 				if pass == "" {
-					c.Violation(fmt.Sprintf("C01/%s/generate-failed/%s/%s", as[0].id, t.name, cfg), fmt.Sprintf("generate %s exits %d on a valid document: %s", t.name, r.Exit, core.OneLine(tail(out, 500))), files(out))
+					report(as[0].id, "generate-failed", t.name, cfg, fmt.Sprintf("generate %s exits %d on a valid document: %s", t.name, r.Exit, core.OneLine(tail(out, 500))), files(out))
 				} else {
 					c.Violation(fmt.Sprintf("C01/B:%s/generate-failed/%s", as[0].id, t.name), fmt.Sprintf("generate %s exits %d: %s", t.name, r.Exit, core.OneLine(tail(out, 500))), files(out))
 				}
@@ -759,6 +765,9 @@ func catalogue(c *core.Ctx) []atom {
 			}
 		}
 	}
+	// operation layouts: response layouts, and parameter names that meet each other or the
+	// names the generated Params structs reserve (timeout, Context, HTTPClient)
+	out = append(out, opLayouts()...)
 	// free text breakers: all positions at once per breaker (a description containing */ must not break generation)
 	for ti, k := range sortedKeys(textBreakers) {
 		d := withText(textBreakers[k], ti)
@@ -801,5 +810,147 @@ func withText(text string, k int) J {
 			"name":  J{"type": "string", "description": text, "title": text, "default": text, "example": text},
 			"color": J{"type": "string", "enum": []any{"red", text}, "description": text},
 			"inner": J{"type": "object", "description": text, "properties": J{"v": J{"type": "integer", "description": text}}}}}},
+	}
+}
+
+// opLayouts: one operation per atom.
+func opLayouts() []atom {
+	var out []atom
+	n := 0
+	add := func(id, method string, o J, defs map[string]J) {
+		n++
+		o["operationId"] = fmt.Sprintf("layoutOp%d", n)
+		if _, ok := o["responses"]; !ok {
+			o["responses"] = J{"200": J{"description": "ok"}}
+		}
+		out = append(out, atom{id: "op." + id, kind: "op", ops: []opJ{{method, fmt.Sprintf("/lay%d", n), o}}, defs: defs})
+	}
+	num := func(s string) json.Number { return json.Number(s) }
+	_ = num
+	thing := func(k string) (string, map[string]J) {
+		name := "LayThing" + k
+		return "#/definitions/" + name, map[string]J{name: {"type": "object", "properties": J{"v": J{"type": "string"}, "n": J{"type": "integer"}}}}
+	}
+	stream := J{"type": "file"}
+	binary := J{"type": "string", "format": "binary"}
+	r := func(desc string, schema any) J {
+		x := J{"description": desc}
+		if schema != nil {
+			x["schema"] = schema
+		}
+		return x
+	}
+	ref := func(p string) J { return J{"$ref": p} }
+	// ---- response layouts
+	add("resp.default-only", "GET", J{"responses": J{"default": r("any", nil)}}, nil)
+	{
+		p, d := thing("A")
+		add("resp.default-only.schema", "GET", J{"responses": J{"default": r("any", ref(p))}}, d)
+	}
+	add("resp.204-only", "DELETE", J{"responses": J{"204": r("gone", nil)}}, nil)
+	{
+		p, d := thing("B")
+		add("resp.200+201+202.schemas", "POST", J{"responses": J{"200": r("ok", ref(p)), "201": r("created", J{"type": "array", "items": ref(p)}), "202": r("accepted", J{"type": "string"})}}, d)
+	}
+	{
+		p, d := thing("C")
+		add("resp.200+4xx+5xx+default.schemas", "GET", J{"responses": J{"200": r("ok", ref(p)), "400": r("bad", J{"type": "object", "properties": J{"message": J{"type": "string"}}}), "404": r("missing", nil), "500": r("boom", J{"type": "string"}), "default": r("other", ref(p))}}, d)
+	}
+	add("resp.3xx-only", "GET", J{"responses": J{"302": J{"description": "moved", "headers": J{"Location": J{"type": "string"}}}}}, nil)
+	add("resp.4xx-only", "GET", J{"responses": J{"404": r("never there", nil)}}, nil)
+	add("resp.primitive-bodies", "GET", J{"responses": J{"200": r("n", J{"type": "integer", "format": "int64"}), "201": r("b", J{"type": "boolean"}), "202": r("f", J{"type": "number"}), "203": r("d", J{"type": "string", "format": "date-time"})}}, nil)
+	add("resp.array-and-map-bodies", "GET", J{"responses": J{"200": r("a", J{"type": "array", "items": J{"type": "string"}}), "201": r("m", J{"type": "object", "additionalProperties": J{"type": "integer"}}), "202": r("aa", J{"type": "array", "items": J{"type": "array", "items": J{"type": "number"}}}), "default": r("any", J{"type": "object", "additionalProperties": true})}}, nil)
+	add("resp.inline-object-bodies", "GET", J{"responses": J{"200": r("o", J{"type": "object", "required": []any{"id"}, "properties": J{"id": J{"type": "integer"}, "inner": J{"type": "object", "properties": J{"deep": J{"type": "string"}}}}}), "default": r("e", J{"type": "object", "properties": J{"code": J{"type": "integer"}}})}}, nil)
+	add("resp.headers-every-type", "GET", J{"responses": J{"200": J{"description": "ok", "headers": J{"X-Str": J{"type": "string"}, "X-Int": J{"type": "integer", "format": "int32"}, "X-Num": J{"type": "number"}, "X-Bool": J{"type": "boolean"}, "X-Date": J{"type": "string", "format": "date-time"},
+		"X-Arr": J{"type": "array", "items": J{"type": "integer"}, "collectionFormat": "pipes"}, "X-Enum": J{"type": "string", "enum": []any{"a", "b"}}, "X-Max": J{"type": "integer", "maximum": num("10")}}},
+		"default": J{"description": "err", "headers": J{"X-Err": J{"type": "string"}}}}}, nil)
+	add("resp.stream.200-file", "GET", J{"produces": []any{"application/octet-stream"}, "responses": J{"200": r("file", stream)}}, nil)
+	add("resp.stream.200-binary", "GET", J{"produces": []any{"application/octet-stream"}, "responses": J{"200": r("file", binary)}}, nil)
+	add("resp.stream.default-only", "GET", J{"produces": []any{"application/octet-stream"}, "responses": J{"default": r("file", stream)}}, nil)
+	add("resp.stream.4xx-only", "GET", J{"produces": []any{"application/octet-stream", "application/json"}, "responses": J{"200": r("ok", nil), "404": r("a file all the same", stream)}}, nil)
+	add("resp.stream.5xx-binary-beside-json-200", "GET", J{"produces": []any{"application/octet-stream", "application/json"}, "responses": J{"200": r("ok", J{"type": "object", "properties": J{"v": J{"type": "string"}}}), "500": r("dump", binary)}}, nil)
+	add("resp.stream.200+default", "GET", J{"produces": []any{"application/octet-stream"}, "responses": J{"200": r("file", stream), "default": r("file", stream)}}, nil)
+	add("resp.stream.3xx", "GET", J{"produces": []any{"application/octet-stream"}, "responses": J{"200": r("ok", nil), "301": r("file", stream)}}, nil)
+	add("resp.stream.with-headers", "GET", J{"produces": []any{"application/octet-stream"}, "responses": J{"200": J{"description": "file", "schema": stream, "headers": J{"Content-Disposition": J{"type": "string"}}}}}, nil)
+	add("resp.upload+download", "POST", J{"consumes": []any{"multipart/form-data"}, "produces": []any{"application/octet-stream"}, "parameters": []any{J{"name": "up", "in": "formData", "type": "file"}}, "responses": J{"200": r("file", stream)}}, nil)
+	add("resp.binary-body-in+out", "PUT", J{"consumes": []any{"application/octet-stream"}, "produces": []any{"application/octet-stream"}, "parameters": []any{J{"name": "blob", "in": "body", "schema": binary}}, "responses": J{"200": r("file", binary), "default": r("err", J{"type": "string"})}}, nil)
+	add("resp.text-plain", "GET", J{"produces": []any{"text/plain"}, "responses": J{"200": r("text", J{"type": "string"}), "default": r("err", J{"type": "string"})}}, nil)
+	{
+		p, d := thing("D")
+		add("resp.same-schema-every-code", "GET", J{"responses": J{"200": r("a", ref(p)), "201": r("b", ref(p)), "400": r("c", ref(p)), "default": r("d", ref(p))}}, d)
+	}
+	add("resp.head-no-body", "HEAD", J{"responses": J{"200": J{"description": "ok", "headers": J{"X-Len": J{"type": "integer"}}}, "404": r("no", nil)}}, nil)
+	add("resp.options", "OPTIONS", J{"responses": J{"200": r("ok", nil)}}, nil)
+	add("resp.patch", "PATCH", J{"parameters": []any{J{"name": "body", "in": "body", "schema": J{"type": "object", "additionalProperties": true}}}, "responses": J{"200": r("ok", J{"type": "object", "additionalProperties": true}), "422": r("bad", J{"type": "array", "items": J{"type": "string"}})}}, nil)
+	// ---- parameter names that meet each other or the generated Params fields
+	q := func(names ...string) []any {
+		var ps []any
+		for _, nm := range names {
+			ps = append(ps, J{"name": nm, "in": "query", "type": "string"})
+		}
+		return ps
+	}
+	for _, set := range [][]string{
+		{"timeout", "request_timeout"}, {"timeout", "request-timeout", "http_request_timeout"}, {"_timeout"}, {"timeout[]"}, {"timeout_"}, {"-timeout"}, {"timeout", "requestTimeout", "httpRequestTimeout", "swaggerTimeout"},
+		{"context", "http_client"}, {"Context", "HTTPClient", "timeout"}, {"http-client", "_context"}, {"x", "X"}, {"a_b", "a-b", "a b", "aB"}, {"id", "ID", "Id"}, {"body", "Body"}, {"params", "request", "route", "principal"},
+		{"rw", "producer", "res", "err", "o", "r", "reg", "formats"}, {"q", "qr", "values", "query", "result", "valuesQ"},
+	} {
+		add("params.together="+strings.Join(set, "+"), "GET", J{"parameters": q(set...)}, nil)
+	}
+	// the same names in different locations of one operation
+	add("params.same-name.query+header", "GET", J{"parameters": []any{J{"name": "id", "in": "query", "type": "string"}, J{"name": "id", "in": "header", "type": "string"}}}, nil)
+	add("params.same-name.query+formData", "POST", J{"consumes": []any{"application/x-www-form-urlencoded"}, "parameters": []any{J{"name": "name", "in": "query", "type": "string"}, J{"name": "name", "in": "formData", "type": "string"}}}, nil)
+	add("params.same-name.query+body", "POST", J{"parameters": []any{J{"name": "item", "in": "query", "type": "string"}, J{"name": "item", "in": "body", "schema": J{"type": "object", "properties": J{"v": J{"type": "string"}}}}}}, nil)
+	add("params.timeout.header+query", "GET", J{"parameters": []any{J{"name": "timeout", "in": "query", "type": "integer"}, J{"name": "Timeout", "in": "header", "type": "string"}}}, nil)
+	return out
+}
+
+// Pass A violations are keyed by (atom, outcome, target, configuration). The same defect shows
+// under every configuration the atom is run with; it is reported once, under the first
+// configuration in a fixed order (plain modes minimal, full, expand, then mode+switch
+// alphabetically), the others are named in the message.
+type pendingReport struct {
+	cfg, what string
+	files     map[string]string
+}
+
+var pending = map[[3]string][]pendingReport{} // guarded by mu (callers hold it)
+
+func report(id, kind, tg, cfg, what string, files map[string]string) {
+	k := [3]string{id, kind, tg}
+	pending[k] = append(pending[k], pendingReport{cfg, what, files})
+}
+
+func cfgRank(cfg string) string {
+	for i, m := range modes {
+		if cfg == m.name {
+			return fmt.Sprintf("0%d", i)
+		}
+	}
+	return "1" + cfg
+}
+
+func flushReports(c *core.Ctx) {
+	mu.Lock()
+	defer mu.Unlock()
+	var ks [][3]string
+	for k := range pending {
+		ks = append(ks, k)
+	}
+	sort.Slice(ks, func(i, j int) bool { return strings.Join(ks[i][:], "/") < strings.Join(ks[j][:], "/") })
+	for _, k := range ks {
+		rs := pending[k]
+		sort.SliceStable(rs, func(i, j int) bool { return cfgRank(rs[i].cfg) < cfgRank(rs[j].cfg) })
+		var also []string
+		for _, r := range rs[1:] {
+			if r.cfg != rs[0].cfg && (len(also) == 0 || also[len(also)-1] != r.cfg) {
+				also = append(also, r.cfg)
+			}
+		}
+		what := rs[0].what
+		if len(also) > 0 {
+			what += " (also under: " + strings.Join(also, ", ") + ")"
+		}
+		c.Violation(fmt.Sprintf("C01/%s/%s/%s/%s", k[0], k[1], k[2], rs[0].cfg), what, rs[0].files)
 	}
 }
